@@ -203,7 +203,7 @@ class Check:
 
     # -- finish ------------------------------------------------------------------------------
     def write_replay(self, kind, payload):
-        d = os.path.join(VERIF, "replays")
+        d = os.path.join(VERIF, "replays") if os.path.realpath(REPO) == "/repo" else "/tmp/mtv_selftest_replays"
         os.makedirs(d, exist_ok=True)
         path = os.path.join(d, "%s-%s-%d-%d.json" % (self.prop_id, kind, self.seed, int(time.time() * 1000) % 100000000))
         payload = dict(payload, property=self.prop_id, kind=kind, seed=self.seed, tier=self.tier)
@@ -281,7 +281,8 @@ class Check:
             "wall_s": round(time.time() - self.t0, 2),
             "violations": violations,
         }
-        d = os.path.join(VERIF, "evidence")
+        # self-test runs against a scratch tree (VERIF_REPO) must not overwrite the registered evidence
+        d = os.path.join(VERIF, "evidence") if os.path.realpath(REPO) == "/repo" else os.environ.get("VERIF_EVIDENCE_DIR", "/tmp/mtv_selftest_evidence")
         os.makedirs(d, exist_ok=True)
         tmp = os.path.join(d, self.prop_id + ".json.tmp")
         with open(tmp, "w") as f:
